@@ -45,7 +45,7 @@ CHECKS = {
     "C10": dict(
         category="exploration",
         technique="exhaustive enumeration of run histories under a harness-owned clock plus Hypothesis-drawn longer histories, history invariants after every run",
-        text="Histories over {2 groups} x {new, reused instance} x non-decreasing scripted instants (same second, +1 s, 12:59:59/13:00:00, 23:59:59/next-day 00:00:00): all canonical histories up to length 3 (quick) / 4 (thorough) with collect_paths, plus drawn histories of length 5-8 over all six methods. After every run: exactly one new directory, under the run's own group, equal to the results' run_dir; sha256 of every file of every earlier run unchanged; '$g.results.<prefix>:last|:first.<id>' resolves to the data of the most recent / earliest run (by scripted start second) whose directory has the prefix.",
+        text="Histories over {2 groups} x {new, reused instance} x non-decreasing scripted instants (same second, +1 s, 12:59:59/13:00:00, 23:59:59/next-day 00:00:00): all canonical histories up to length 3 (quick) / 5 (thorough) with collect_paths, plus drawn histories of length 5-8 over all six methods. After every run: exactly one new directory, under the run's own group, equal to the results' run_dir; sha256 of every file of every earlier run unchanged; '$g.results.<prefix>:last|:first.<id>' resolves to the data of the most recent / earliest run (by scripted start second) whose directory has the prefix.",
         note="Clock patched through module attributes csvpath.csvpaths.datetime and csvpath.managers.metadata.datetime; a directory not dated 2031 => harness error. Ties within a second accept any tied run.",
         design="5 C10",
     ),
